@@ -236,7 +236,10 @@ def setup():
         rc, out, wall = kv.run(['make', '-k', f'-j{kv.NPROC}'], 3000, cwd=kv.COQ)
         print(out[-3000:])
         print(f'setup: make exit {rc} in {wall:.0f}s')
-        return 1 if (rc != 0 or lint) else 0
+        base_ok = all(os.path.exists(p + 'o') for p in glob.glob(os.path.join(kv.COQ, 'Base', '*.v')))
+        # a file of one property that does not build must not take the others down: each check
+        # re-builds and judges its own dependency closure
+        return 0 if base_ok else 1
 
 
 def main():
